@@ -324,13 +324,29 @@ Proof.
   intros [a sp t d tm i w l inf] H. cbn in H. subst. exec. repeat split.
 Qed.
 
+Lemma step_lost_active : forall sp t d i w l inf,
+  step (mkSt true sp t d None i w l inf) Lost =
+  (mkSt true sp t initialDelay (Some initialDelay) i (pred w) l IWaiting, [OSetTimer initialDelay]).
+Proof. intros. reflexivity. Qed.
+
+Lemma step_timer_expired : forall a sp t d q i w l inf,
+  step (mkSt a sp t d (Some q) i w l inf) TimerExpired = (mkSt a sp t d None (S i) w l IConnecting, [OGetRef]).
+Proof. intros. reflexivity. Qed.
+
+Lemma step_fail_active : forall z sp t d i w l inf,
+  step (mkSt true sp t d None i w l inf) (AttemptFail z) =
+  (mkSt true sp t (jittered z (Qmin (d * factor) maxDelay)) (Some (jittered z (Qmin (d * factor) maxDelay)))
+        (pred i) w l IWaiting, [OSetTimer (jittered z (Qmin (d * factor) maxDelay))]).
+Proof. intros. unfold jittered. exec. destruct (q_truthy jitter); reflexivity. Qed.
+
 Lemma first_failure_after_loss : forall s z, active s = true -> watching s = 1%nat -> inflight s = 0%nat -> timer s = None ->
   let r := run s [Lost; TimerExpired; AttemptFail z] in
   timer (fst r) = Some (jittered z (Qmin (initialDelay * factor) maxDelay)) /\
   snd r = [OSetTimer initialDelay; OGetRef; OSetTimer (jittered z (Qmin (initialDelay * factor) maxDelay))].
 Proof.
-  intros [a sp t d tm i w l inf] z H1 H2 H3 H4. cbn in H1, H2, H3, H4. subst.
-  unfold jittered. cbn [run]. exec. destruct (q_truthy jitter); exec; split; reflexivity.
+  intros [a sp t d tm i w l inf] z H1 H2 H3 H4. cbn [active watching inflight timer] in H1, H2, H3, H4. subst.
+  cbv zeta. cbn [run]. rewrite step_lost_active. cbn [pred]. rewrite step_timer_expired. rewrite step_fail_active.
+  split; reflexivity.
 Qed.
 
 Theorem backoff_restarts : forall evs z,
